@@ -60,13 +60,13 @@ Proof.
     + destruct (run_body E C fault k h s1) as [[[r0 l0] h0] s0] eqn:Ek. apply IHk in Ek. inversion H; subst. exact Ek.
   - destruct (nested E C fault cx (run_body E C fault b) h s) as [[[r0 o0] h1] s1] eqn:En.
     apply (nested_cx_prop _ _ IHb) in En. destruct En as [En _].
-    destruct r0.
+    destruct r0 as [|e0|p0].
     + destruct (run_body E C fault k h1 s1) as [[[r1 l1] h2] s2] eqn:Ek. apply IHk in Ek.
       inversion H; subst. cbn [forallb]. rewrite En, Ek. reflexivity.
     + destruct chk; [inversion H; subst; cbn [forallb]; rewrite En; reflexivity|].
       destruct (run_body E C fault k h1 s1) as [[[r1 l1] h2] s2] eqn:Ek. apply IHk in Ek.
       inversion H; subst. cbn [forallb]. rewrite En, Ek. reflexivity.
-    + destruct rcv; [|inversion H; subst; cbn [forallb]; rewrite En; reflexivity].
+    + destruct (recovers rcv p0); [|inversion H; subst; cbn [forallb]; rewrite En; reflexivity].
       destruct (run_body E C fault k h1 s1) as [[[r1 l1] h2] s2] eqn:Ek. apply IHk in Ek.
       inversion H; subst. cbn [forallb]. rewrite En, Ek. reflexivity.
   - destruct (h_sp E C fault true (NUser n) h s) as [h1 s1].
